@@ -72,6 +72,11 @@ pub(crate) fn load_table<R: Read + std::io::Seek>(
         })?,
         None => 1,
     };
+    if totals_row_count > 1 || header_row_count > 1 {
+        return Err(XlsxError::Xml(
+            "Corrupt XML structure: totalsRowCount/headerRowCount must be 0 or 1".to_string(),
+        ));
+    }
 
     // style index of the header row of the table
     let header_row_dxf_id = if let Some(index_str) = table.attribute("headerRowDxfId") {
